@@ -51,6 +51,13 @@ func (e simEvent) String() string {
 
 // scenario options that shape the enabled set
 type simMenu struct {
+	// OrderCost selects delay-bounded scheduling: the first enabled internal
+	// event (canonical order: oldest message first, then replication steps) is
+	// the default schedule and is free; taking any other internal event first
+	// costs one deviation, like a fault.  Without it every interleaving of
+	// internal events is explored and only faults/timeouts/client operations
+	// cost deviations.
+	OrderCost   bool
 	Timeouts    bool     // election / quorum timeouts are enabled (each costs a deviation)
 	TimeoutFree int      // number of timeouts that are free (scripted)
 	Drops       bool     // message loss
@@ -58,7 +65,6 @@ type simMenu struct {
 	Cuts        bool     // truncated append requests
 	ConnFail    bool     // replication connection failures
 	Crashes     bool     // crash + restart
-	Disconnects bool     // "disconnected" notifications as explicit events
 	Partitions  bool     // link partitions
 	Clients     []string // client operations available: update, read, barrier, dirty, batch2
 	ClientNodes []int    // nodes clients talk to (nil: all up nodes)
@@ -91,10 +97,19 @@ func (w *world) connByKey(key string) *simConn {
 func (w *world) liveConns() []*simConn {
 	w.mu.Lock()
 	defer w.mu.Unlock()
-	var out []*simConn
-	for _, c := range w.conns {
-		out = append(out, c)
-	}
+	out := append([]*simConn(nil), w.conns...)
+	// creation order is racy between goroutines dialling concurrently; the
+	// (client, server, per-pair sequence) order is deterministic
+	sort.Slice(out, func(i, j int) bool {
+		a, b := out[i], out[j]
+		if a.cli != b.cli {
+			return a.cli < b.cli
+		}
+		if a.srv != b.srv {
+			return a.srv < b.srv
+		}
+		return a.seq < b.seq
+	})
 	return out
 }
 
@@ -133,7 +148,7 @@ func (w *world) enabled(m *simMenu, cnt simCounters) []simEvent {
 					add(simEvent{K: "X", N: c.cli, C: c.key(), A: 1, Dev: 1})
 				}
 			}
-		} else if m.Disconnects && identNid != 0 && !disc && srv.up {
+		} else if w.opt.Disconnects && identNid != 0 && !disc && srv.up {
 			add(simEvent{K: "DC", N: c.srv, C: c.key()})
 		}
 	}
@@ -491,6 +506,7 @@ func (w *world) deliver(c *simConn, dup bool) error {
 		return fmt.Errorf("%w: deliver to down node", errSimHarness)
 	}
 	sc := c.srvConn
+	pend := c.peekRequest()
 	if dup {
 		w.mu.Lock()
 		b := append([]byte(nil), c.pendingBytesLocked()...)
@@ -522,6 +538,7 @@ func (w *world) deliver(c *simConn, dup bool) error {
 		c.delivered++
 	}
 	w.led.beforeDeliver(dst, c, rp.req, dup)
+	simDeliverCtx.pending = pend
 	err = dst.stepLoop(func() error {
 		tm := time.NewTimer(simWatchdog)
 		defer tm.Stop()
